@@ -3,7 +3,7 @@ them.  Decided: the parser / unparser contract."""
 import ast
 import re
 
-from sa import pyflow, tables
+from sa import pattern as pat, pyflow, tables
 from sa.consteval import Evaluator, is_unknown
 from sa.loader import AnalysisError, enclosing_function, enclosing_class
 
@@ -262,6 +262,41 @@ def run(repo, run, tier):
                               "`%s` is only rendered when `%s` is absent (elif): a declaration carrying both qualifiers "
                               "loses one" % (clash[0] if clash else "", a), dm.loc(node), sample=dict(method=q, qualifier=a))
     run.floor(R1, "qualifier tests in the renderers", nq, 5)
+
+    # abstract declarators: `void f(int *, const double &)` - a declarator without a name is dropped only when it has no
+    # pointer/reference operators either
+    pdcl = dm.func("Parser.declarator")
+    drops2 = [a for a in ast.walk(pdcl) if isinstance(a, ast.Assign) and pyflow.is_name(a.targets[0], "node")
+              and isinstance(a.value, ast.Constant) and a.value.value is None]
+    for d in drops2:
+        conds = [(dm.seg(t), pol) for t, pol in pyflow.dominating_tests(d, stop=pdcl)]
+        run.check(R1, "declast.Parser.declarator:abstract", ("not node.pointer", True) in conds or ("node.pointer", False) in conds,
+                  "the declarator is discarded under %s: an unnamed parameter keeps its `*` / `&` operators only if the "
+                  "declarator survives whenever node.pointer is non-empty" % conds, dm.loc(d))
+    if not drops2:
+        raise AnalysisError("C09.R1: `node = None` of Parser.declarator not found")
+    # Declarator rendering: force_ptr *replaces* the declared pointer chain, as_scalar suppresses it
+    dg = dm.func("Declarator.gen_decl_work")
+    loops = [l for l in ast.walk(dg) if isinstance(l, ast.For) and "self.pointer" in dm.seg(l.iter)]
+    for l in loops:
+        conds = [(dm.seg(t), pol) for t, pol in pyflow.dominating_tests(l, stop=dg)]
+        need = [c for c in conds if "force_ptr" in c[0] and not c[1]], [c for c in conds if "as_scalar" in c[0] and not c[1]]
+        run.check(R1, "declast.Declarator.gen_decl_work:pointer-chain", all(need),
+                  "the declared pointer chain is printed under %s: it must be skipped both when force_ptr already printed "
+                  "` *` and when as_scalar is requested (`T * & x` otherwise)" % conds, dm.loc(l))
+    if not loops:
+        raise AnalysisError("C09.R1: pointer loop of Declarator.gen_decl_work not found")
+    # a typedef declared in a namespace/class is known to C++ under its scoped name
+    am_ = repo.module("ast")
+    ct = am_.func("NamespaceMixin.create_typedef_typemap")
+    clone = pat.find(ct, "MV_T = MV_O.clone_as(self.scope + MV_K)")
+    okc = False
+    if len(clone) == 1:
+        T_ = clone[0][1]["T"]
+        okc = pat.has(ct, "%s.cxx_type = %s.name" % (T_, T_))
+    run.check(R1, "ast.NamespaceMixin.create_typedef_typemap:cxx_type", okc,
+              "the typedef's typemap is registered under scope + name; its cxx_type must be that scoped name as well, "
+              "otherwise wrappers at file scope name a type that is only declared inside the namespace/class", am_.loc(ct))
 
     # ---- R2 order
     common = ["const", "template_arguments", "declarator", "params", "func_const", "array"]
